@@ -22,6 +22,7 @@ import (
 	"os"
 	"reflect"
 	"regexp"
+	"runtime"
 	"strconv"
 	"strings"
 	"sync"
@@ -160,7 +161,8 @@ type dumpOut struct {
 	DocEq   bool      `json:"docEq"`
 	LooseEq bool      `json:"looseEq"`
 	FJDiff  bool      `json:"fjdiff,omitempty"`
-	Conc    bool      `json:"conc,omitempty"` // the library call ran concurrently with the other calls of its batch
+	Conc    bool      `json:"conc,omitempty"`    // the library call ran concurrently with the other calls of its batch
+	Changed string    `json:"changed,omitempty"` // what the returned string reads now, if not what it read at return
 	Panic   string    `json:"panic,omitempty"`
 }
 
@@ -769,8 +771,13 @@ func dumpStdEncode(v interface{}) (string, error) {
 
 func dumpRun(args []string) error {
 	fs := flag.NewFlagSet("dump-run", flag.ContinueOnError)
+	seq := fs.Bool("seq", false, "no concurrent batches: the records are dumped one after the other in the given order")
 	if err := fs.Parse(args); err != nil {
 		return err
+	}
+	if *seq {
+		// one processor: whatever the library recycles per processor (sync.Pool) is then the same object in every call
+		runtime.GOMAXPROCS(1)
 	}
 	in := newLineReader(os.Stdin)
 	out := newLineWriter(os.Stdout)
@@ -779,11 +786,51 @@ func dumpRun(args []string) error {
 	// concurrently (one goroutine per record, released together), so that half of the outputs judged by TLC were
 	// produced while other dumps were in flight: the dumper's result must be a function of its argument alone.
 	type item struct {
-		r   dumpRec
-		val interface{}
-		o   dumpOut
+		r    dumpRec
+		val  interface{}
+		o    dumpOut
+		held string // the string as the library handed it out (o.Out is a copy taken at return)
 	}
 	batchNo := 0
+	// a batch is judged after the calls of the NEXT batch: what it was handed must not change by then
+	var pending []*item
+	judge := func(batch []*item) error {
+		for _, it := range batch {
+			r, o, val := &it.r, &it.o, it.val
+			var jerr error
+			if o.JOut, jerr = dumpStdEncode(val); jerr != nil {
+				return fmt.Errorf("record %d: the standard encoder failed: %v", r.ID, jerr)
+			}
+			// the library's own wrapper of the standard encoder is only compared (a difference is a note, not a verdict)
+			if fj, fp := dumpCall(valid.GetDumpStructStrForJson, val); fp != "" || fj != o.JOut {
+				o.FJDiff = true
+			}
+			if it.held != o.Out { // the string handed out is not the caller's alone: a later call wrote into it
+				o.Changed = string(append([]byte(nil), it.held...))
+				if o.Changed == o.Out {
+					o.Changed += " (still changing)"
+				}
+			}
+			o.Tokens = dumpLex(o.Out)
+			o.JTokens = dumpLex(o.JOut)
+			o.Valid = json.Valid([]byte(o.Out))
+			got := dumpDecode(o.Out)
+			if (got != nil) != o.Valid {
+				return fmt.Errorf("record %d: json.Valid and the decoder disagree on %q", r.ID, o.Out)
+			}
+			std := dumpDecode(o.JOut)
+			if std == nil {
+				return fmt.Errorf("record %d: the standard encoder's output does not decode: %q", r.ID, o.JOut)
+			}
+			o.LooseEq = got != nil && dumpDocEqual(std, got, true)
+			if r.Doc != nil {
+				o.HasDoc = true
+				o.DocEq = got != nil && dumpDocEqual(r.Doc, got, false)
+			}
+			out.put(o)
+		}
+		return nil
+	}
 	for {
 		var batch []*item
 		for len(batch) < dumpBatch {
@@ -806,7 +853,7 @@ func dumpRun(args []string) error {
 			break
 		}
 		batchNo++
-		if batchNo%2 == 0 && len(batch) > 1 {
+		if batchNo%2 == 0 && len(batch) > 1 && !*seq {
 			var wg sync.WaitGroup
 			start := make(chan struct{})
 			for _, it := range batch {
@@ -814,7 +861,8 @@ func dumpRun(args []string) error {
 				go func(it *item) {
 					defer wg.Done()
 					<-start
-					it.o.Out, it.o.Panic = dumpCall(valid.GetDumpStructStr, it.val)
+					it.held, it.o.Panic = dumpCall(valid.GetDumpStructStr, it.val)
+					it.o.Out = string(append([]byte(nil), it.held...)) // judged: what the string read at return
 					it.o.Conc = true
 				}(it)
 			}
@@ -822,39 +870,16 @@ func dumpRun(args []string) error {
 			wg.Wait()
 		} else {
 			for _, it := range batch {
-				it.o.Out, it.o.Panic = dumpCall(valid.GetDumpStructStr, it.val)
+				it.held, it.o.Panic = dumpCall(valid.GetDumpStructStr, it.val)
+				it.o.Out = string(append([]byte(nil), it.held...))
 			}
 		}
-		for _, it := range batch {
-			r, o, val := &it.r, &it.o, it.val
-			var jerr error
-			if o.JOut, jerr = dumpStdEncode(val); jerr != nil {
-				return fmt.Errorf("record %d: the standard encoder failed: %v", r.ID, jerr)
-			}
-			// the library's own wrapper of the standard encoder is only compared (a difference is a note, not a verdict)
-			if fj, fp := dumpCall(valid.GetDumpStructStrForJson, val); fp != "" || fj != o.JOut {
-				o.FJDiff = true
-			}
-			o.Tokens = dumpLex(o.Out)
-			o.JTokens = dumpLex(o.JOut)
-			o.Valid = json.Valid([]byte(o.Out))
-			got := dumpDecode(o.Out)
-			if (got != nil) != o.Valid {
-				return fmt.Errorf("record %d: json.Valid and the decoder disagree on %q", r.ID, o.Out)
-			}
-			std := dumpDecode(o.JOut)
-			if std == nil {
-				return fmt.Errorf("record %d: the standard encoder's output does not decode: %q", r.ID, o.JOut)
-			}
-			o.LooseEq = got != nil && dumpDocEqual(std, got, true)
-			if r.Doc != nil {
-				o.HasDoc = true
-				o.DocEq = got != nil && dumpDocEqual(r.Doc, got, false)
-			}
-			out.put(o)
+		if err := judge(pending); err != nil {
+			return err
 		}
+		pending = batch
 	}
-	return nil
+	return judge(pending)
 }
 
 const dumpBatch = 8
